@@ -606,6 +606,7 @@ fn run_op(st: &mut St, op: &Value) -> Value {
             gblocks(&Projector::project(t.iter(), &k.parent()))
         }
         "to_markdown" => json!(gr(st).to_markdown(&key(op))),
+        "is_ref_url" => json!(liwe::model::is_ref_url(op["url"].as_str().unwrap())),
         "render_reread" => {
             // real writer, then real reader
             let blocks: Vec<GraphBlock> = op["blocks"].as_array().unwrap().iter().map(rblock).collect();
